@@ -66,8 +66,10 @@ uses an array that contains the assigned signal: `q0[1] <-- ..` and `q0 ===
 before (`q0[0][0]` does not mention `q0[1]`).  On fully indexed references (all
 that was generated before) this is the old rule: equal name, equal access.
 `mentions(key, constraint, exact=True)` is the old rule on everything - what
-signal_assignments.rs (`signal_use.access() == access`) implements; the class
-of assignments on which the two differ is `partial-access-mention`."""
+signal_assignments.rs implemented up to /repo 517e7a0 (`signal_use.access() ==
+access`; repaired by 4f017e8 + 96648cc, which implement THE RULE); the class of
+assignments on which the two differ is `partial-access-mention` (kept to tell
+"the equality output" from anything else when a failure is reported)."""
 
 NONQUAD_BIN = ["/", "\\", "%", ">>", "<<", "&", "|", "^", "<", ">", "==", "**"]
 QUAD_BIN = ["+", "-", "*"]
